@@ -35,7 +35,7 @@ META = dict(
     level_note='stand-in Cluster/Session objects expose exactly what the real methods read; pre-emption at environment call-outs (blocking factory, connection requests, metadata refresh) and, in job control-race, a Cluster.shutdown() by another thread at any acquire/release of the two locks of the control connection (with every host of the plan refusing as one of the cases, so that the retry-scheduling branch is reached); not inside lock-free regions of driver code; pools themselves are C12',
     technique='symbolic execution (sx, solver-forked scheduler flags) of the real cassandra.cluster.ControlConnection._reconnect/_try_connect/_set_new_connection/shutdown, Session.shutdown/submit/add_or_renew_pool and Cluster.shutdown over scripted connections and recorders',
     bounds=dict(quick='control connection: 1..2 hosts in the plan (first may fail to connect), shutdown possible at each of 5 call-outs of the connect sequence or not at all, control-connection or cluster shutdown; session: shutdown before/after a node-up event, 2 hosts; cluster: 0..2 sessions, shutdown twice',
-                thorough='same'),
+                thorough='same, plus control-race2: two Cluster.shutdown() calls by other threads at sync points (concurrent shutdowns)'),
     assumptions=['another thread calls shutdown() only while the connecting thread is inside an environment call (factory, request round trip, metadata refresh)'],
     stubs=['connection_factory: scripted control connections (register_watchers / wait_for_responses / close recorded)', 'Cluster and Session stand-ins; executor runs submitted tasks inline or records them'],
     outside=['HostConnection internals (C12)', 'shutdown racing inside lock-free regions', 'the idle heartbeat thread'],
@@ -71,7 +71,7 @@ class CtlConn(object):
 
 
 class CtlWorld(object):
-    def __init__(self, V, race=False):
+    def __init__(self, V, race=False, budget=1):
         self.V = V
         self.sched_down = False
         self.attempts_after_shutdown = 0
@@ -118,7 +118,7 @@ class CtlWorld(object):
             def act(*a):
                 self.shutdown_at = 'sync:%s' % '/'.join(str(x) for x in pre.log[-1])
                 self.do_shutdown()
-            pre = kit.Preempter(V, None, act, only_unlocked=True, enabled=lambda: self.shutdown_at is None and not ctl._is_shutdown)
+            pre = kit.Preempter(V, None, act, only_unlocked=True, budget=budget, enabled=lambda: budget > 1 or (self.shutdown_at is None and not ctl._is_shutdown))
             ctl._lock = kit.SchedLock('ctl._lock', pre)
             ctl._reconnection_lock = kit.SchedLock('ctl._reconnection_lock', pre)
             self.race = True
@@ -153,8 +153,8 @@ class CtlWorld(object):
         return c
 
 
-def h_control(V, race=False):
-    w = CtlWorld(V, race=race)
+def h_control(V, race=False, budget=1):
+    w = CtlWorld(V, race=race, budget=budget)
     try:
         w.ctl._reconnect()
         outcome = 'connected' if not w.fail_all else 'retry-scheduled'
@@ -316,4 +316,8 @@ def h_cluster(V):
 
 
 def jobs(tier):
+    if tier == 'thorough':
+        # two pre-emptions: a second thread calls Cluster.shutdown() as well (concurrent shutdowns)
+        return [Job('control', 'h_control', {}), Job('control-race', 'h_control', dict(race=True)), Job('control-race2', 'h_control', dict(race=True, budget=2)),
+                Job('session', 'h_session', {}), Job('cluster', 'h_cluster', {})]
     return [Job('control', 'h_control', {}), Job('control-race', 'h_control', dict(race=True)), Job('session', 'h_session', {}), Job('cluster', 'h_cluster', {})]
